@@ -50,12 +50,15 @@ theorem C16_group_notFound_recActs (env : Env) (tab : Nat → Option Hosts) (rt 
   exact ⟨_, serve_all_reject env tab rt g req hall, rfl, rfl, rfl, rfl, rfl⟩
 
 /-- The `http.Error` record of the bundled recovery options on the headers `hs` set so far, without (`false`) and
-with (`true`) the `headResponse` wrapper: the right-hand sides of `C16_bundled_rec` / `C16_bundled_rec_head`. -/
+with (`true`) the `headResponse` wrapper: the right-hand sides of `C16_bundled_rec` / `C16_bundled_rec_head`, for every
+configured status (an informational one is not final: `errorStatus`, and nothing sent yet under the wrapper). -/
 def bundledRec (code n : Nat) (hw : Bool) (hs : Hdr) : Rec :=
   let h' := ((hs.del hContentLength).set hContentType (bytesOfString "text/plain; charset=utf-8")).set
               (bytesOfString "X-Content-Type-Options") (bytesOfString "nosniff")
-  if hw then { hdr := h'.set hContentLength (natToBytes (n + 1)), code := some code, snap := some h', body := 0 }
-  else { hdr := h', code := some code, snap := some h', body := n + 1 }
+  if hw then { hdr := h'.set hContentLength (natToBytes (n + 1)),
+               code := if informational code then none else some code,
+               snap := if informational code then none else some h', body := 0 }
+  else { hdr := h', code := some (errorStatus code), snap := some h', body := n + 1 }
 
 theorem C16_bundledRec_eq (code n : Nat) (hw : Bool) (hs : Hdr) :
     recRec (httpErrorActs code n) hw hs = bundledRec code n hw hs := by
@@ -69,7 +72,9 @@ theorem C16_bundledRec_eq (code n : Nat) (hw : Bool) (hs : Hdr) :
 panic or mux's own nil-call fault, `runCall … = .error v` — with exactly the `http.Error` record on the CORS headers
 `c.respHeaders` set before the handler ran: the record of `C16_bundled_rec` when `c.headWrap = false`, and of
 `C16_bundled_rec_head` when `c.headWrap = true`, which is the case iff the request is a HEAD that was routed
-(`c.ok`, i.e. served through the GET route's automatic HEAD entry).  The value reaches the recovery function
+(`c.ok`, i.e. served through the GET route's automatic HEAD entry).  `code` is ANY configured status: a final one is
+the status of the record; an informational one (1xx except 101) is not final in net/http, the record then carries
+`errorStatus code = 200` (GET) resp. nothing sent yet (HEAD; the implicit 200 follows), see `C16_bundled_status`.  The value reaches the recovery function
 unchanged and nothing escapes `ServeHTTP`. -/
 theorem C16_bundled_contained (cfg : RouterCfg) (r0 : Router) (code n : Nat) (hnew : Router.new cfg = some r0)
     (hrec : cfg.recover = true) (hacts : cfg.recActs = httpErrorActs code n) (ops : List ROp)
@@ -82,11 +87,13 @@ theorem C16_bundled_contained (cfg : RouterCfg) (r0 : Router) (code n : Nat) (hn
       (c.headWrap = false → bundledRec code n c.headWrap c.respHeaders =
         (let h' := ((c.respHeaders.del hContentLength).set hContentType (bytesOfString "text/plain; charset=utf-8")).set
                     (bytesOfString "X-Content-Type-Options") (bytesOfString "nosniff")
-         { hdr := h', code := some code, snap := some h', body := n + 1 })) ∧
+         { hdr := h', code := some (errorStatus code), snap := some h', body := n + 1 })) ∧
       (c.headWrap = true → bundledRec code n c.headWrap c.respHeaders =
         (let h' := ((c.respHeaders.del hContentLength).set hContentType (bytesOfString "text/plain; charset=utf-8")).set
                     (bytesOfString "X-Content-Type-Options") (bytesOfString "nosniff")
-         { hdr := h'.set hContentLength (natToBytes (n + 1)), code := some code, snap := some h', body := 0 }))) := by
+         { hdr := h'.set hContentLength (natToBytes (n + 1)),
+           code := if informational code then none else some code,
+           snap := if informational code then none else some h', body := 0 }))) := by
   have hr : (r0.run ops).recover = true := by rw [C16_recover_stable cfg r0 ops hnew, hrec]
   have ha : (r0.run ops).recActs = httpErrorActs code n := by rw [C16_recActs_stable cfg r0 ops hnew, hacts]
   obtain ⟨h1, h2⟩ := C16_contained (r0.run ops) hr env pc scripts req ps
@@ -131,6 +138,10 @@ example : ∃ c, (bundledR0.run [.use [1]]).serveContext env0 demoReq [] = .call
   simp [runCall, lookupNat, wrapWith, Base.code]
 
 example : (bundledRec 418 12 false []).code = some 418 ∧ (bundledRec 418 12 false []).body = 13 ∧
-    (bundledRec 418 12 true []).body = 0 := ⟨rfl, rfl, rfl⟩
+    (bundledRec 418 12 true []).body = 0 ∧ (bundledRec 418 12 true []).code = some 418 := by decide +kernel
+
+/-- a router built with `WithStatusRecovery(103)`: the record has status 200 (GET) / nothing sent yet (HEAD) -/
+example : (bundledRec 103 11 false []).code = some 200 ∧ (bundledRec 103 11 false []).body = 12 ∧
+    (bundledRec 103 11 true []).code = none ∧ (bundledRec 103 11 true []).status = 200 := by decide +kernel
 
 end Mux.C16
